@@ -38,6 +38,20 @@ for name, spec in b['files'].items():
             f.write(bytes(spec['bytes']))
     if spec.get('old_mtime'):
         os.utime(path, (978307200, 978307200))      # as cp -p / tar x / rsync -t do: the content is new, the modification time is not
+if b['exit'] < 0:
+    # the command as a whole dies from signal -exit: the shell that runs this file is the command gentest started, so it is
+    # the shell that has to die (subprocess then reports -N); never anything that is not a shell
+    import signal
+    sys.stdout.flush(); sys.stderr.flush()
+    try:
+        parent = open('/proc/%d/comm' % os.getppid()).read().strip()
+    except OSError:
+        parent = ''
+    if parent in ('sh', 'dash', 'bash'):
+        os.close(1); os.close(2)
+        os.kill(os.getppid(), -b['exit'])
+        os._exit(0)
+    os._exit(128 - b['exit'])
 sys.exit(b['exit'])
 '''
 
@@ -164,6 +178,9 @@ def make_case(rnd, wd, shape, tmpdir_tokens_with_one_iteration=True, dated_first
     beh = {'stdout': text_of(rnd, rnd.randint(0, 4), token_pool=tokens) if rnd.random() < 0.85 else '',
            'stderr': text_of(rnd, rnd.randint(1, 3), allow_specific=False, token_pool=tokens) if rnd.random() < 0.5 else '',
            'files': files, 'exit': rnd.choice([0, 0, 0, 3])}
+    if beh['exit'] == 3 and len(beh['stdout']) % 3 == 0:
+        # ... or ends through a signal (SIGTERM, SIGKILL): the status subprocess reports is -N (no draw: the other cases stay as they were)
+        beh['exit'] = -15 if len(beh['stderr']) % 2 == 0 else -9
     if rnd.random() < 0.12:
         # a log whose every line is stamped with today's date (five or more stamps)
         import datetime as _dt
